@@ -186,6 +186,22 @@ def h_div_list(columns):
             c.check('a-over-the-product-of-the-list-with-missing-columns-as-one', len(r[col]) == 1 and feq(r[col][0][1], opf('div', x, opf('mul', y, z))))
     return h
 
+def h_list_with_scalar(op):
+    """a list [frame, scalar, frame] reduces left to right: under the outer column policy the grouping matters (a scalar only reaches the columns present at that point)"""
+    def h(c):
+        Pm = P(); base = c.day('base')
+        A, oa, ca = frame(c, 'A', 1, base, ('a', 'b')); B, ob, cb = frame(c, 'B', 1, base, ('b', 'c'))
+        c.assume(oa[0] == ob[0])
+        sc = c.float('s', allow = (core.FIN,), halves = 8)
+        r = frame_cells(getattr(Pm, op + '_')([A, sc, B], columns = 'oj'))
+        neutral = NEUTRAL[op]
+        acc = {k: opf(op, ca[k][0], sc) for k in ('a', 'b')}                                   # (A op s): the scalar broadcasts over A's columns
+        want = {k: opf(op, acc.get(k, neutral), cb[k][0] if k in cb else neutral) for k in ('a', 'b', 'c')}       # ... op B, missing columns act as the neutral element
+        c.check('columns', sorted(r.keys()) == ['a', 'b', 'c'])
+        for col in ('a', 'b', 'c'):
+            c.check('list-with-a-scalar-reduces-left-to-right-under-the-outer-column-policy', len(r[col]) == 1 and feq(r[col][0][1], want[col]))
+    return h
+
 def gate_frames(stride = 1):
     """the real add_/sub_/mul_/div_ under the real pandas vs under the minipd frame model, on an exhaustive small domain of two-column frames"""
     import pandas as rpd, numpy as np, itertools, pyg_base._pandas as RP
@@ -254,6 +270,8 @@ def obligations(tier):
     for columns in ('oj',):          # under 'ij' the pre-summed list may collapse to one column, which then broadcasts (single-column frames act as series)
         obs.append(Ob('frames.sub-list.%s' % columns, h_sub_list(columns), setup = S, budget_s = 300, desc = 'sub_(a, [b, c], columns=%s) on frames with different column sets' % columns))
         obs.append(Ob('frames.div-list.%s' % columns, h_div_list(columns), setup = S, budget_s = 300, desc = 'div_(a, [b, c], columns=%s) on frames with different column sets' % columns))
+    for op in ('add', 'mul'):
+        obs.append(Ob('frames.list-with-scalar.%s' % op, h_list_with_scalar(op), setup = S, budget_s = 300, desc = '%s_([frame, scalar, frame], columns=oj) reduces left to right' % op))
     for which in ('sum', 'mean', 'count'):
         for n in range(0, N + 1):
             obs.append(Ob('df_%s.%d' % (which, n), h_agg(which, n), setup = S, budget_s = 300 if q else 1500, desc = 'df_%s of two Series of %d rows: union index, NaN skipped' % (which, n)))
